@@ -55,6 +55,16 @@ func runC15(p *eng.Prog, r *eng.Report, tier string) {
 	c15SenderIsPeer(c)
 	// C15.11 the peer's close is answered whatever the local flush says
 	c15CloseAnswered(c)
+	// C15.12 the peer check rests on address equality
+	jidEqualRule(c, "C15.12")
+	// C15.13 every packet is decoded into a fresh zero value: encoding/xml only
+	// assigns the attributes that are present, so a pooled or reused target
+	// keeps the previous packet's sid and seq for a packet that lacks them
+	for _, name := range []string{"(*Handler).HandleIQ", "(*Handler).HandleMessage"} {
+		if f := c.fn("C15.13", "ibb", name); f != nil {
+			freshDecodeTargets(c, "C15.13", f, 1)
+		}
+	}
 }
 
 // c15SenderIsPeer: the routing table is keyed by the sid alone. On the serve
